@@ -141,12 +141,13 @@ structure Fr (Kn : String → Prop) (σ0 : FState) (s0 s s' : CState) (D R C : N
   pend : ∀ a ∈ s'.qc.anc, a ∉ s'.qc.free → a ∉ s'.qc.kept → a ∉ s'.qc.marked →
     (a ∈ s.qc.anc ∧ a ∉ s.qc.free ∧ a ∉ s.qc.marked) ∨ R a
   alloc : ∀ q, s.qc.numQubits ≤ q → q < s'.qc.numQubits → q ∈ s'.qc.anc ∨ E q
+  fkeep : ∀ q ∈ s'.qc.free, q ∈ s.qc.free
 
 variable {Kn : String → Prop} {ρ : Env} {σ0 : FState} {s0 : CState}
 
 theorem Fr.refl {D R C E : Nat → Prop} (s : CState) : Fr Kn σ0 s0 s s D R C E :=
   ⟨Nat.le_refl _, fun _ h => h, fun _ h => h, fun _ h => h, fun _ h => Or.inl h, fun _ h => h, rfl, fun _ _ _ => rfl, fun _ h _ => h,
-    fun _ h1 h2 _ h4 => Or.inl ⟨h1, h2, h4⟩, fun q h1 h2 => absurd h2 (by omega)⟩
+    fun _ h1 h2 _ h4 => Or.inl ⟨h1, h2, h4⟩, fun q h1 h2 => absurd h2 (by omega), fun _ h => h⟩
 
 theorem Fr.trans {D1 D2 R1 R2 C1 C2 E1 E2 : Nat → Prop} {s s1 s2 : CState}
     (h1 : Fr Kn σ0 s0 s s1 D1 R1 C1 E1) (h2 : Fr Kn σ0 s0 s1 s2 D2 R2 C2 E2) :
@@ -156,7 +157,8 @@ theorem Fr.trans {D1 D2 R1 R2 C1 C2 E1 E2 : Nat → Prop} {s s1 s2 : CState}
     fun a h => h2.akeep a (h1.akeep a h),
     fun a h => (h2.anew a h).elim (h1.anew a) (fun h' => Or.inr (h1.avail a h')),
     fun q h => h2.tkeep q (h1.tkeep q h), h2.kkeep.trans h1.kkeep, ?_,
-    fun x h hc => h2.priv x (h1.priv x h (fun hh => hc (Or.inl hh))) (fun hh => hc (Or.inr hh)), ?_, ?_⟩
+    fun x h hc => h2.priv x (h1.priv x h (fun hh => hc (Or.inl hh))) (fun hh => hc (Or.inr hh)), ?_, ?_,
+    fun q h => h1.fkeep q (h2.fkeep q h)⟩
   · intro q hq hd
     rw [h2.val q (fun h => hq (h1.avail q h)) (fun h => hd (Or.inr h)), h1.val q hq (fun h => hd (Or.inl h))]
   · intro a ha hf hk hm
@@ -184,7 +186,7 @@ theorem Fr.mono {D D' R R' C C' E E' : Nat → Prop} {s s' : CState} (h : Fr Kn 
   ⟨h.nq, h.avail, h.mkeep, h.akeep, h.anew, h.tkeep, h.kkeep, fun q hq hn => h.val q hq (fun hh => hn (hd q hq hh)),
     fun x hx hn => h.priv x hx (fun hh => hn (hc x hx hh)),
     fun a h1 h2 h3 h4 => (h.pend a h1 h2 h3 h4).imp id (fun hh => hr a hh h1 h3 h4),
-    fun q h1 h2 => (h.alloc q h1 h2).imp id (he q)⟩
+    fun q h1 h2 => (h.alloc q h1 h2).imp id (he q), h.fkeep⟩
 
 /-! ### primitives -/
 
@@ -318,7 +320,7 @@ theorem gate_fr {cls : GClass} {cs : List Nat} {t : Nat} {s s' : CState} {g : AG
   have hav : ∀ q, Avail s' q ↔ Avail s q := avail_congr ha.free ha.nq
   refine ⟨Nat.le_of_eq ha.nq.symm, fun q h => (hav q).mp h, fun m h => by rw [ha.marked]; exact h,
     fun a h => by rw [ha.anc]; exact h, fun a h => Or.inl (by rw [← ha.anc]; exact h), ?_, ha.kept,
-    fun q _ hq => ha.cur_ne hc σ0 q hq, ?_, ?_, ?_⟩
+    fun q _ hq => ha.cur_ne hc σ0 q hq, ?_, ?_, ?_, ?_⟩
   · rintro q ⟨g', hg1, hg2⟩
     exact ⟨g', by rw [hL]; exact List.mem_append_left _ hg1, hg2⟩
   · intro x hx hcs
@@ -333,6 +335,7 @@ theorem gate_fr {cls : GClass} {cs : List Nat} {t : Nat} {s s' : CState} {g : AG
   · intro a h1 h2 _ h4
     exact Or.inl ⟨by rw [← ha.anc]; exact h1, by rw [← ha.free]; exact h2, by rw [← ha.marked]; exact h4⟩
   · intro q h1 h2; rw [ha.nq] at h2; exact absurd h2 (by omega)
+  · intro q h; rw [ha.free] at h; exact h
 
 /-- a step that changes neither the gate lists nor the values and leaves the quantum-circuit bookkeeping
 alone except (possibly) the marked set, which may only grow by in-use unkept ancillas that are targets -/
@@ -393,7 +396,7 @@ theorem Fr.of_quiet {C : Nat → Prop} {s s' : CState}
   refine ⟨Nat.le_of_eq hn.symm, fun q h => (hav q).mp h, hmk, fun a h => by rw [ha]; exact h,
     fun a h => Or.inl (by rw [← ha]; exact h),
     fun q h => by unfold TgtL; rw [hL]; exact h, hk, fun q _ _ => by rw [cur_congr hgt], ?_, ?_,
-    fun q h1 h2 => absurd h2 (by rw [hn]; omega)⟩
+    fun q h1 h2 => absurd h2 (by rw [hn]; omega), fun q h => by rw [hf] at h; exact h⟩
   · intro x hx hcx
     refine ⟨fun h => hx.nav ((hav x).mp h), hx.av0, by rw [hq]; exact hx.nn, ?_, by unfold Unread; rw [hL]; exact hx.unread,
       fun h => (hm x h).elim hx.nm hcx⟩
@@ -553,7 +556,7 @@ theorem getFreeAncilla_gi {a : Nat} {s s' : CState}
         fun q h' => by rw [hcur]; exact gi.zero q (hav q h'), ?_, gi.knOK, ?_, hfnd, ?_, ?_, ?_, ?_⟩,
       ⟨hnq, hav, fun m hm => by rw [hmk]; exact hm, hanck,
         fun x hx => (hancs x hx).imp id (fun (e : x = a) => e ▸ hava), htk, hkp, fun q _ _ => by rw [hcur], ?_, ?_,
-        fun q h1 h2 => Or.inl (hnew q h1 h2 ▸ hanca)⟩,
+        fun q h1 h2 => Or.inl (hnew q h1 h2 ▸ hanca), fun q h' => (hfree q h').1⟩,
       hcur, hava, ⟨hnava, gi.avail a hava, ?_, by rw [hex]; exact hnc, ?_, ?_⟩, hanca, by rw [hkp]; exact hakept,
       hmk, hex⟩
     · intro g hg; rw [hL] at hg
